@@ -27,6 +27,10 @@ Act ==
     [] E.op = "readsp"    -> ReadSp(A(1))
     [] E.op = "remove"    -> Remove(A(1))
     [] E.op = "setkey"    -> SetKey(A(1), A(2), A(3))
+    [] E.op = "sp_pop"    -> SpPop(A(1), A(2))
+    [] E.op = "sp_setdefault" -> SpSetDefault(A(1), A(2), A(3))
+    [] E.op = "sp_update" -> SpUpdate(A(1), A(2))
+    [] E.op = "sp_clear"  -> SpClear(A(1))
     [] E.op = "assign"    -> AssignSp(A(1), A(2))
     [] E.op = "update_sp" -> UpdateSp(A(1), A(2), A(3), A(4))
     [] E.op = "docset"    -> DocSet(A(1), A(2))
